@@ -29,6 +29,7 @@ EVENTS = [
     ("open-block", "{", "open"),
     ("close-block", "}", "close"),
     ("open-function-with-param", f"void f(int {N}) {{", "openfn-param"),
+    ("open-function-unnamed-then-param", f"void f(int, int {N}) {{", "openfn-param"),   # C23: a parameter name may be omitted
     ("open-function", "void f(void) {", "openfn"),
     ("open-function-named-N", f"void {N}(void) {{", "openfn-named"),
     # definition with an implicit `int` return type (C89; a documented extension of the parser): the header starts with the name
